@@ -37,9 +37,7 @@ class Entry:
 		"""
 		for entry in self.entries:
 			yield entry
-
-			for in_entry in entry.entries:
-				yield in_entry
+			yield from entry.unders()
 
 
 AltFormatter: TypeAlias = Callable[['BlockFormatter'], str | None]
@@ -144,7 +142,7 @@ class BlockParser:
 			if kind == Kinds.Block:
 				end, in_entries = cls._parse_block(text, brackets, delimiter, index_for_kind + 1, depth)
 				entries.append(Entry(index, end, depth, kind, in_entries))
-				index = end + 1
+				index = end
 			elif kind == Kinds.Element:
 				entries.append(Entry(index, index_for_kind, depth, kind, []))
 				index = index_for_kind
